@@ -12,8 +12,7 @@ open AbtemVerif AbtemVerif.Proto AbtemVerif.Gen.ApertureF AbtemVerif.Gen.Envelop
      aperture <soft T|F> <grid T|F> <origin T|F> <cutoff_mrad | inf> <alpha> <phi> <a0_mrad> <a1_mrad>
      temporal <alpha> <wavelength> <focal_spread>
      spatial <alpha> <phi> <wavelength> <spread_mrad> <25 coefficients>
-     dchi <alpha> <phi> <wavelength> <25 coefficients>
-   replies: `ok <bits>[,<bits>]` | `bad-op` -/
+   replies: `ok <bits>` | `bad-op`   (dchi_dk / dchi_dphi are local variables of the method: their twins are exercised through `spatial`) -/
 
 def softGlue (alpha phi cutoff a0 a1 : Float) (origin : Bool) : Float :=
   if origin then 1 else softAperture alpha phi cutoff (angularSamplingRad a0) (angularSamplingRad a1)
@@ -53,10 +52,6 @@ def handle : List String → String
     match parseFloatBits? al, parseFloatBits? ph, parseFloatBits? wl, parseFloatBits? sp, coeffs? cs with
     | some al, some ph, some wl, some sp, some p => s!"ok {showFloatBits (spatialEnvelope al ph wl (spatialSpreadRad sp) p)}"
     | _, _, _, _, _ => "bad-op"
-  | ["dchi", al, ph, wl, cs] =>
-    match parseFloatBits? al, parseFloatBits? ph, parseFloatBits? wl, coeffs? cs with
-    | some al, some ph, some wl, some p => s!"ok {showFloatBits (dchiDk al ph wl p)},{showFloatBits (dchiDphi al ph wl p)}"
-    | _, _, _, _ => "bad-op"
   | _ => "bad-op"
 
 def main : IO Unit := serve handle
